@@ -807,6 +807,9 @@ class ClientSession:
                         )
                         if r_url is None:
                             # see github.com/aio-libs/aiohttp/issues/2022
+                            # Nowhere to go: this is the final response, not
+                            # an intermediate one.
+                            history.pop()
                             break
                         else:
                             # reading from correct redirection
